@@ -11,3 +11,11 @@ package udp
 
 //@ func TimestampLen
 //@   ensures result == 64
+
+// Socket configuration and kernel transmit timestamps: system calls, assumed (arbitrary results, no tracked effect).
+//@ func EnableTimestamping
+//@   trusted
+//@ func SetDSCP
+//@   trusted
+//@ func ReadTXTimestamp
+//@   trusted
